@@ -113,6 +113,25 @@ func (e *Exec) libModel(st *State, callee *ssa.Function, cc *ssa.CallCommon, arg
 		e.assume(st, fmt.Sprintf("(not (= %s 0))", r.S))
 		set(r)
 		return true, true, nil
+	case "(*net.Buffers).WriteTo":
+		// assumed (net.Buffers.WriteTo / writev): writes a prefix of the concatenation of the
+		// buffers and returns its length n; n < total length => err != nil
+		if e.mode != ModeInt {
+			break
+		}
+		used()
+		e.eng.spec.need(e.sc, "psum")
+		bufs := e.load(st, args[0])
+		k, srt := e.elemKey(types.NewSlice(tByte))
+		m := e.memGet(st, k, srt)
+		total := fmt.Sprintf("(psum (select %s (s-base %s)) (s-off %s) (s-len %s))", m, bufs.S, bufs.S, bufs.S)
+		n := e.sc.fresh("wn", "Int")
+		errv := e.freshVal(st, "werr", types.Universe.Lookup("error").Type())
+		e.assume(st, and(fmt.Sprintf("(<= 0 %s)", n), fmt.Sprintf("(<= %s %s)", n, total), imp(fmt.Sprintf("(< %s %s)", n, total), fmt.Sprintf("(not (= (i-tag %s) 0))", errv.S))))
+		// the receiver is consumed (modified in place)
+		e.store(st, args[0], e.freshVal(st, "consumed", bufs.T))
+		set(Val{T: resT, Tup: []Val{{T: types.Typ[types.Int64], S: n}, errv}})
+		return true, true, nil
 	case "bytes.NewBuffer":
 		// model: a Buffer is a heap object whose field buf holds the unread bytes (off == 0)
 		used()
